@@ -150,7 +150,7 @@ def call_ufunc(g, da, mo):
                                  boundary="fill", fill_value=3.0, dask="allowed" if mo else "parallelized", map_overlap=mo)
 
 
-def check_lazy(rec, sub, case, build, eager_fn, expect_refuse, chunked, threads=False, second=None):
+def check_lazy(rec, sub, case, build, eager_fn, expect_refuse, chunked, threads=False, second=None, defect_model=None):
     """build(): the lazy call; eager_fn(): the in-memory call"""
     import dask
 
@@ -195,6 +195,18 @@ def check_lazy(rec, sub, case, build, eager_fn, expect_refuse, chunked, threads=
         rec.violation(sub, "dims", case, list(ee.dims), list(v.dims))
         return None
     if v.shape != ee.shape or not np.array_equal(v.values, ee.values, equal_nan=True):
+        if defect_model is not None:
+            # recorded defect (known_findings.json): classified as such only if the observed values are exactly what the
+            # defect model predicts; any other mismatch of the same case is an ordinary violation
+            try:
+                with warnings.catch_warnings():
+                    warnings.simplefilter("ignore")
+                    dm = defect_model()
+            except Exception:
+                dm = None
+            if dm is not None and dm.shape == v.shape and np.array_equal(np.asarray(dm.values, dtype=float), np.asarray(v.values, dtype=float), equal_nan=True):
+                rec.violation(sub, "integer-lazy-data:interp-declared-integer-then-truncated-by-fill-padding", case, ee.values, v.values)
+                return None
         rec.violation(sub, "values-differ-from-eager", case, ee.values, v.values)
         return None
     if set(v.coords) != set(ee.coords) or any(not np.array_equal(v.coords[c].values, ee.coords[c].values) for c in ee.coords):
@@ -260,7 +272,7 @@ def part_A(rec, tier, seed, fr, to, only=None):
                     for lm in ((False, True) if op in ("derivative", "cumint", "integrate", "average") else (False,)):
                         idx += 1
                         case = dict(part="A", fr=fr, to=to, cx=list(cx), ct=list(ct), cy=list(cy), op=op, axis=axis, lm=lm)
-                        if only is not None and only != {k: v for k, v in case.items()} and only != dict(case, layout="x-first-float32") and only != dict(case, layout="dask-aux-coordinate") and only != dict(case, grid="alt-rules") and only != dict(case, layout="x-first-float32", grid="alt-rules") and not (op == "wide" and only == dict(case, axis=list(axis))):
+                        if only is not None and only != {k: v for k, v in case.items()} and only != dict(case, layout="x-first-float32") and only != dict(case, layout="dask-aux-coordinate") and only != dict(case, layout="int64") and only != dict(case, grid="alt-rules") and only != dict(case, layout="x-first-float32", grid="alt-rules") and not (op == "wide" and only == dict(case, axis=list(axis))):
                             continue
                         gg = glazy if lm else g
                         chunked_axis = len(cx) > 1 if (axis == "X" or axis == "mo" or axis == "nomo" or op in ("wide", "ufunc2d", "ufunc2d-par", "ufunc-io") or (isinstance(axis, list) and "X" in axis)) else False
@@ -314,8 +326,14 @@ def part_A(rec, tier, seed, fr, to, only=None):
                             case = dict(case, layout="x-first-float32")
                             build = lambda: call(gg, op, e_t.chunk(chunks), axis, kw)
                             eager = lambda: call(gg, op, e_t, axis, kw)
+                        if op in ("diff", "interp", "min", "max", "cumsum") and idx % 4 == 2:
+                            # integer-typed lazy data (means of integers are not integers; blocks keep the kernel's dtype)
+                            e_i = (e_in * 1).astype(np.int64)
+                            case = dict(case, layout="int64")
+                            build = lambda: call(gg, op, e_i.chunk(chunks), axis, kw)
+                            eager = lambda: call(gg, op, e_i, axis, kw)
                         second = None
-                        if op not in ("ufunc", "wide", "multi", "ufunc2d", "ufunc2d-par", "ufunc-io") and idx % 6 == 2:
+                        if op not in ("ufunc", "wide", "multi", "ufunc2d", "ufunc2d-par", "ufunc-io") and idx % 6 == 2 and "layout" not in case:
                             # the input carries a dask-backed 2-D auxiliary coordinate chunked differently from the data
                             aux = xr.DataArray(np.arange(2.0 * m).reshape(2, m), dims=["yc", POSD[fr]]).chunk({"yc": 1, POSD[fr]: m})
                             e_aux = e_in.assign_coords(aux=aux)
@@ -331,9 +349,14 @@ def part_A(rec, tier, seed, fr, to, only=None):
                             # graph: neither kernel may disturb the block the other one reads
                             op2_ = {"diff": "interp", "interp": "diff", "min": "diff", "max": "diff", "cumsum": "diff", "derivative": "interp", "cumint": "diff"}[op]
                             second = (lambda: call(gg, op2_, e_in.chunk(chunks), axis, kw), lambda: call(gg, op2_, e_in, axis, kw))
+                        dmodel = None
+                        if case.get("layout") == "int64" and op == "interp" and isinstance(axis, list):
+                            # defect model: the lazy result of the first axis is declared int64; a following padding with the
+                            # fill rule casts the (floating point) blocks to that declared dtype
+                            dmodel = lambda: call(gg, op, call(gg, op, e_i, axis[0], kw).astype(np.int64), axis[1], kw)
                         check_lazy(rec, "simple-grid", case, build, eager, refuse, anych,
-                                   threads=(tier == "thorough" or idx % 5 == 0), second=second)
-                        if plain and not lm and idx % 4 in (1, 3) and "dask-aux" not in case.get("layout", ""):
+                                   threads=(tier == "thorough" or idx % 5 == 0), second=second, defect_model=dmodel)
+                        if plain and not lm and idx % 4 in (1, 3) and case.get("layout") in (None, "x-first-float32"):
                             # the same lazy variable on a Grid over the same dataset whose own rules differ
                             src_ = e_t if case.get("layout") == "x-first-float32" else e_in
                             check_lazy(rec, "simple-grid", dict(case, grid="alt-rules"), lambda: call(galt, op, src_.chunk(chunks), axis, kw),
